@@ -327,6 +327,19 @@ Theorem default_algorithm_usable :
   str_mem default_algorithm hash_algorithms = true /\ str_mem default_algorithm hash_xof = false.
 Proof. split; vm_compute; reflexivity. Qed.
 
+(* fault injection, for EVERY errno: instances of the two filter theorems *)
+Example ex_inject_every_errno : forall (e : Z) (p : bytes),
+  snd (ensure_tree (script_rt (OErr e) true) p default_mode tt)
+    = (if e =? errno_EEXIST then OOk tt else OErr e) /\
+  snd (ensure_tree (script_rt (OErr e) false) p default_mode tt) = OErr e /\
+  snd (delete_if_exists p (rt_unlink (script_rt (OErr e) false)) tt)
+    = (if e =? errno_ENOENT then OOk tt else OErr e).
+Proof.
+  intros e p. unfold ensure_tree, delete_if_exists, script_rt. cbn [rt_makedirs rt_isdir rt_unlink snd].
+  rewrite andb_true_r, andb_false_r.
+  destruct (e =? errno_EEXIST); destruct (e =? errno_ENOENT); repeat split; reflexivity.
+Qed.
+
 (* ---------- the unconditional statement about write_to_tempfile is false ----------
    write_to_tempfile calls os.write once and ignores the number of bytes it reports.  A
    runtime whose write(2) transfers at most [wlimit] bytes per call (every Linux: wlimit =
